@@ -310,6 +310,37 @@ def d6(cx: Cx, ob: Ob) -> None:
         line = ctx.path.out[2]
         if strip_order(t) == items:
             ob.site(f"{where(fn, line)} {fn.qualname}", "return the items (no chains)")
+            # this shortcut is right only when NO key is also a value - judged on the same strings on both sides
+            KEYS = [rm, ("call", ("builtin", "set"), (rm,), ()), ("call", ("attr", rm, "keys"), (), ()), ("call", ("builtin", "set"), (("call", ("attr", rm, "keys"), (), ()),), ())]
+            VALS = [("call", ("attr", rm, "values"), (), ()), ("call", ("builtin", "set"), (("call", ("attr", rm, "values"), (), ()),), ())]
+            from ..rules import guard_atoms
+
+            verdict = None
+            for a_, pol_ in guard_atoms(ctx.guards):
+                ops_ = None
+                if op(a_) == "call" and op(a_[1]) == "attr" and a_[1][2] in ("intersection", "isdisjoint") and len(a_[2]) == 1:
+                    ops_ = (a_[1][1], a_[2][0], a_[1][2] == "isdisjoint")
+                elif op(a_) == "bin" and a_[1] == "&":
+                    ops_ = (a_[2], a_[3], False)
+                if ops_ is None:
+                    continue
+                x_, y_, disj = ops_
+                if pol_ != disj:
+                    continue  # not the "disjoint" polarity
+                if (x_ in KEYS and y_ in VALS) or (x_ in VALS and y_ in KEYS):
+                    verdict = "ok"
+                elif any(z in KEYS or z in VALS for z in (x_, y_)):
+                    verdict = ("mixed", x_, y_)
+            if verdict is None:
+                ob.undecide("the condition under which _order_curie_remapping skips the layer ordering is not recognised")
+            elif verdict != "ok":
+                ob.violate(
+                    fn.qualname,
+                    where(fn, line),
+                    f"_order_curie_remapping decides 'no key is also a value' by comparing `{show(verdict[1])[:40]}` with `{show(verdict[2])[:40]}` - raw names on one side, transformed ones on the other: a chain through a synonym is taken for independent pairs and applied in key order",
+                    witness="{'x': 'n', 'b': 'x'} with x a synonym of record a: b->x runs first, is skipped as a clash, then x->n drops x",
+                    detail="chain-test-mixed",
+                )
             continue
         if op(t) == "new" and t[1] == "list":
             builders.append((t, line))
